@@ -2,7 +2,7 @@
 // shark::WeightedLabeledData<I, unsigned int> (include/shark/Data/WeightedDataset.h).  A weighted dataset is a
 // LabeledData plus a Data<double> of weights that must go through every structural operation in lock-step;
 // element id carries weight id + 0.25, so the oracle can tell when a weight is separated from its element.
-// Supported ops: new repart splitb splice append subset shuffle copy (the generator restricts itself to these).
+// Supported ops: new repart splitb splitat splice append subset shuffle copy (the generator restricts itself to these).
 // argv[1]: wuint | wreal
 #define C03_NO_MAIN
 #include "c03.cpp"
@@ -45,7 +45,7 @@ struct WHarness: public Harness<I>{
 	}
 
 	bool wvalid(std::string const& op, std::vector<std::size_t> const& a){
-		static const char* ok[] = {"new", "repart", "splitb", "splice", "append", "subset", "shuffle", "copy"};
+		static const char* ok[] = {"new", "repart", "splitb", "splitat", "splice", "append", "subset", "shuffle", "copy"};
 		bool found = false; for(const char* o: ok) if(op == o) found = true;
 		if(!found) return false;
 		for(std::size_t k = 0; k != 4; ++k) this->d[k] = wd[k].data();   // the preconditions are those of the data part
@@ -71,6 +71,14 @@ struct WHarness: public Harness<I>{
 			return "";
 		}
 		if(op == "splitb"){ wd[a[0]].makeIndependent(); wd[a[0]].splitBatch(a[1], a[2]); return ""; }
+		if(op == "splitat"){
+			wd[a[0]].makeIndependent();
+			wd[a[1]] = splitAtElement(wd[a[0]], a[2]);
+			this->sh[a[1]] = Flat(this->sh[a[0]].begin() + a[2], this->sh[a[0]].end());
+			this->sh[a[0]].resize(a[2]);
+			if(wd[a[0]].numberOfElements() != a[2]) this->fail("splitAtElement-left-size");
+			return "";
+		}
 		if(op == "splice"){
 			std::vector<std::size_t> part = wd[a[0]].getPartitioning();
 			std::size_t k = 0; for(std::size_t i = 0; i != a[2]; ++i) k += part[i];
